@@ -166,10 +166,19 @@ func (c *Ctx) prefixFree(tk *TreeKind) prefixFreeInfo {
 		}
 		// per type-switch arm there must be exactly one width
 		perArm := true
+		typeArms := map[*ast.CaseClause]bool{}
+		ast.Inspect(tu.Body, func(n ast.Node) bool {
+			if ts, ok := n.(*ast.TypeSwitchStmt); ok {
+				for _, cl := range ts.Body.List {
+					typeArms[cl.(*ast.CaseClause)] = true
+				}
+			}
+			return true
+		})
 		ast.Inspect(tu.Body, func(n ast.Node) bool {
 			cc, ok := n.(*ast.CaseClause)
-			if !ok {
-				return true
+			if !ok || !typeArms[cc] {
+				return true // only the arms of the switch over the key type (not a value switch inside one)
 			}
 			l, ok2, app := c.constLens(cc, v)
 			if !ok2 || app {
@@ -195,21 +204,33 @@ func (c *Ctx) prefixFree(tk *TreeKind) prefixFreeInfo {
 	// variable length: needs a terminator that the payload cannot contain
 	term := c.m.ByName["terminated"]
 	usesTerm := 0
-	for _, mn := range []string{"Insert", "Search", "Delete"} {
-		if u := tk.Methods[mn]; u != nil {
-			ast.Inspect(u.Body, func(n ast.Node) bool {
-				if call, ok := n.(*ast.CallExpr); ok {
-					if f := c.m.staticCallee(call); f != nil && term != nil && f == term.Obj {
-						usesTerm++
-					}
-					if isBuiltinCall(info, call, "append") && len(call.Args) == 2 {
-						if tv, ok := info.Types[call.Args[1]]; ok && tv.Value != nil {
-							usesTerm++
-						}
+	// the terminator is appended in the entry point itself or in a key-preparing helper it calls
+	var hasTerm func(u *FuncUnit, depth int) bool
+	hasTerm = func(u *FuncUnit, depth int) bool {
+		found := false
+		ast.Inspect(u.Body, func(n ast.Node) bool {
+			if call, ok := n.(*ast.CallExpr); ok && !found {
+				if f := c.m.staticCallee(call); f != nil && term != nil && f == term.Obj {
+					found = true
+				}
+				if isBuiltinCall(info, call, "append") && len(call.Args) == 2 {
+					if tv, ok := info.Types[call.Args[1]]; ok && tv.Value != nil {
+						found = true
 					}
 				}
-				return true
-			})
+				if cu := c.m.calleeUnit(call); !found && cu != nil && cu.Lit == nil && cu.Body != nil && cu != u && depth < 2 && cu.Recv == u.Recv && u.Recv != "" {
+					if hasTerm(cu, depth+1) {
+						found = true
+					}
+				}
+			}
+			return !found
+		})
+		return found
+	}
+	for _, mn := range []string{"Insert", "Search", "Delete"} {
+		if u := tk.Methods[mn]; u != nil && hasTerm(u, 0) {
+			usesTerm++
 		}
 	}
 	if usesTerm >= 3 {
